@@ -23,7 +23,8 @@ Reply: records joined by `|`:
   `S <k> <framer>*`              state after tick k, per framer `i:status:active:actives:done:main:elapsed:recurred`
   `V <values>`                   store values after tick k
   `Z <framer>*`, `V …`           after the final ABORT of everything still ready
-  `G overlap=<b> reenter=<b>`    ghost flags of the run (region predicates of the known findings)
+  `G overlap=<b> reenter=<b> shared=<b>`  ghost flags of the run and `sharedAux` of the program (region
+                                 predicates of the known findings)
   `ERR build <kind>` / `ERR run <kind>`
 -/
 namespace Ioflo.Drv.Flo
@@ -258,7 +259,8 @@ def snapshot (tag : String) (nfr nsh : Nat) (s : St World) : List String :=
 def flush (acts : Array CAct) (s : St World) : List String × St World :=
   (showEvents acts s.trace.reverse, { s with trace := [] })
 
-def runLoop (P : Prog) (sem : Sem World) (lo : Ops World) (acts : Array CAct) (nfr nsh period : Nat) :
+def runLoop (P : Prog) (sem : Sem World) (lo : Ops World) (acts : Array CAct) (nfr nsh period : Nat)
+    (shared : Bool) :
     Nat → Nat → Sked → St World → List String → List String
   | 0, _, _, _, out => out ++ ["ERR run ticks"]
   | fuel + 1, k, sk, s, out =>
@@ -273,8 +275,9 @@ def runLoop (P : Prog) (sem : Sem World) (lo : Ops World) (acts : Array CAct) (n
         | .ok s'' =>
           let (evs, s'') := flush acts s''
           out ++ evs ++ snapshot "Z" nfr nsh s'' ++
-            ["G overlap=" ++ (if s''.overlap then "1" else "0") ++ " reenter=" ++ (if s''.reenter then "1" else "0")]
-      else runLoop P sem lo acts nfr nsh period fuel (k + 1) sk' { s' with now := s'.now + period } out
+            ["G overlap=" ++ (if s''.overlap then "1" else "0") ++ " reenter=" ++ (if s''.reenter then "1" else "0")
+              ++ " shared=" ++ (if shared then "1" else "0")]
+      else runLoop P sem lo acts nfr nsh period shared fuel (k + 1) sk' { s' with now := s'.now + period } out
 
 def showResolveErr : Outline.ResolveErr → String
   | .badOver => "badOver" | .loop => "loop" | .badUnder => "badUnder"
@@ -291,7 +294,8 @@ def execute (r : Request) (acts : Array CAct) (needs : Array NeedC) : String :=
     let s0 := r.ready.foldl (fun s e => addReady e.1 e.2 s) (initSt w)
     let sk : Sked := { ready := r.ready.map (·.1) }
     if r.ticks = 0 then "ERR run ticks" else
-    "|".intercalate (runLoop P sem lo acts framers.length r.shares.length r.period r.ticks 0 sk s0 [])
+    "|".intercalate (runLoop P sem lo acts framers.length r.shares.length r.period (sharedAux frames)
+      r.ticks 0 sk s0 [])
 
 def step (_ : Unit) (line : String) : Unit × String :=
   match request { toks := words line } with
